@@ -89,6 +89,43 @@ class Resolver:
             self._binds[name] = assignments(self.fn, name)
         return self._binds[name]
 
+    def _reaching(self, plain, at):
+        """The plain bindings (in source order) that may reach `at`: going backwards from the last one, a binding that sits
+        in an if-arm / loop / try block not containing the use does not kill the earlier ones; the walk stops at the first
+        binding whose enclosing blocks all contain the use, or when the if- and else-arm of one `if` are both covered."""
+        def arms(node):
+            out = []
+            cur = node
+            while cur is not None and cur is not self.fn:
+                p = getattr(cur, "_parent", None)
+                if isinstance(p, ast.If):
+                    out.append((id(p), "body" if any(cur is x for x in p.body) else "orelse", p))
+                elif isinstance(p, (ast.For, ast.While, ast.Try, ast.With)):
+                    out.append((id(p), "block", p))
+                cur = p
+            return out
+        use_blocks = {(a, b) for a, b, _ in arms(at)}
+        got = []
+        chains = []
+        covered = {}
+        for b in reversed(plain):
+            barms = arms(b[0])
+            cond = [(a, w, nd) for a, w, nd in barms if (a, w) not in use_blocks and not isinstance(nd, ast.With)]
+            chain = tuple((a, w) for a, w, nd in reversed(cond))  # outermost first
+            # killed by a later binding that executes whenever this one does (same block or an enclosing one)
+            if any(chain[:len(c)] == c for c in chains):
+                continue
+            got.append(b)
+            chains.append(chain)
+            if not cond:
+                break
+            a, w, nd = cond[0]
+            if w in ("body", "orelse") and len(cond) == 1:
+                covered.setdefault(a, set()).add(w)
+                if covered[a] == {"body", "orelse"}:
+                    break
+        return list(reversed(got))
+
     def resolve(self, expr: ast.AST, at: Optional[ast.AST] = None, depth: int = 0) -> ast.AST:
         at = at or expr
         pos = _pos(at)
@@ -109,6 +146,24 @@ class Resolver:
                 if not plain:
                     return n
                 stmt, idx, kind = plain[-1]
+                # reaching definitions: a binding inside a branch that does not contain the use does not hide earlier ones
+                alts = me._reaching(plain, at)
+                if len(alts) > 1 and depth < me.max_depth:
+                    vals = []
+                    for st2, idx2, kind2 in alts:
+                        if kind2 not in ("assign", "unpack"):
+                            vals = []
+                            break
+                        v2 = me.resolve(st2.value, st2, depth + 1)
+                        if idx2 is not None:
+                            v2 = v2.elts[idx2] if isinstance(v2, (ast.Tuple, ast.List)) and idx2 < len(v2.elts) else \
+                                ast.Call(func=ast.Name(id="proj", ctx=ast.Load()), args=[v2, ast.Constant(idx2)], keywords=[])
+                        vals.append(v2)
+                    texts = {ast.unparse(ast.fix_missing_locations(v)) for v in vals}
+                    if vals and len(texts) > 1:
+                        if sum(1 for v in vals for _ in ast.walk(v)) > me.max_nodes:
+                            return n
+                        return ast.Call(func=ast.Name(id="phi", ctx=ast.Load()), args=[_clone(v) for v in vals], keywords=[])
                 augs = [b for b in binds if b[2] == "aug" and _pos(b[0]) > _pos(stmt)]
                 if me._method_mutated(n.id, _pos(stmt), pos):
                     return n  # filled/reordered through methods after its binding: the binding is not its value
